@@ -351,6 +351,11 @@ func c27CheckIter(db database.Database, prov string, ref c27Ref, prefix, start s
 	return fmt.Sprintf("n=%d", len(got))
 }
 
+// the observation itself recorded a specific failure (error / aliasing): no generic wrong-state on top
+func c27AlreadyReported(d string) bool {
+	return d == "get-alias" || d == "get-error" || d == "has-error" || d == "iter-error"
+}
+
 // c27Observe compares the complete observable content with the reference.
 // Returns "" when equal, else a short description of the first difference.
 func c27Observe(db database.Database, prov string, ref c27Ref, o *c27Obs) string {
@@ -467,7 +472,7 @@ func c27Apply(db database.Database, prov string, ref c27Ref, e c27Event, scribbl
 		scrV(vb)
 		}
 		// nothing may be visible before Commit
-		if d := c27Observe(db, prov, ref, o); d != "" {
+		if d := c27Observe(db, prov, ref, o); d != "" && !c27AlreadyReported(d) {
 			o.add(prov+".batch", "visible-before-commit", fmt.Sprintf("ops=%d", len(e.Ops)), "content %s, batch %s buffered but not committed: %s", ref.canon(), c27EvString(e), d)
 		}
 		if e.End == "commit" {
@@ -586,7 +591,7 @@ func c27RunOnce(p c27Provider, hist [][2]string, e c27Event, scribble bool) (*c2
 func c27RunOn(db database.Database, prov string, ref c27Ref, e c27Event, scribble bool, o *c27Obs) string {
 	class := c27Apply(db, prov, ref, e, scribble, o)
 	after := c27RefApply(ref, e)
-	if d := c27Observe(db, prov, after, o); d != "" {
+	if d := c27Observe(db, prov, after, o); d != "" && !c27AlreadyReported(d) {
 		o.add(prov+"."+e.Kind, "wrong-state", "", "content %s, event %s: %s", ref.canon(), c27EvString(e), d)
 	}
 	return class
@@ -874,4 +879,7 @@ func TestVerif_C27(t *testing.T) {
 	}
 	os.RemoveAll(c27TmpRoot(r))
 	_ = bytes.Equal
+	for k, v := range c27Millis {
+		r.Extra("sum_cpu_ms_"+k, int64(v))
+	}
 }
